@@ -39,12 +39,9 @@ class Parser(ExecutableObjectParser[ProgramToExecute]):
 
 
 def _syntax_error_if_not_at_eof(source: parse_source.ParseSource):
-    if source.is_at_eof:
-        return
-    if source.is_at_eol__except_for_space:
+    while not source.is_at_eof and source.is_at_eol__except_for_space:
         source.consume_current_line()
-        _syntax_error_if_not_at_eof(source)
-    else:
+    if not source.is_at_eof:
         raise ParseException.of_str(
             'Superfluous arguments of {PROGRAM}: {src}'.format(
                 PROGRAM=syntax_elements.PROGRAM_SYNTAX_ELEMENT.singular_name,
